@@ -232,6 +232,20 @@ class ProgGen:
         h = self.rng.choice([0, 0, 1, 2, 255]); body = self.body(d + 1)
         if self.rng.random() < .3 and self.defined:      # recursion / mutual calls
             body += self.op('CALL') + u1(self.rng.choice(self.defined + [h]))
+        elif self.rng.random() < .25:
+            # (self-)recursion that passes through a construct: the call budget must be charged identically in every arm / body
+            rng = self.rng; op = self.op
+            call = op('CALL') + u1(rng.choice(self.defined + [h, h, h]))
+            if rng.random() < .3: call = self.P(call) + op('EVAL')
+            k = rng.randrange(7)
+            if k == 0: w = op('TRUE') + op('IF') + u2(len(call)) + call
+            elif k == 1: w = op('TRUE') + op('IF_ELSE') + u2(len(call)) + call + u2(0)
+            elif k == 2: w = op('FALSE') + op('IF_ELSE') + u2(0) + u2(len(call)) + call
+            elif k == 3: w = op('TRY_EXCEPT') + u2(len(call)) + call + u2(0)
+            elif k == 4: fail = op('FALSE') + op('VERIFY'); w = op('TRY_EXCEPT') + u2(len(fail)) + fail + u2(len(call)) + call
+            elif k == 5: lb = op('POP0') + call + op('FALSE'); w = op('TRUE') + op('LOOP') + u2(len(lb)) + lb
+            else: inner = op('TRUE') + op('IF_ELSE') + u2(len(call)) + call + u2(0); w = op('TRUE') + op('IF') + u2(len(inner)) + inner
+            body += w
         self.defined.append(h)
         return self.op('DEF') + u1(h) + u2(len(body)) + body
     def s_RECTRY(self, d):
@@ -530,7 +544,18 @@ CLEAN_SNIPPETS = [n for n in ALL_SNIPPETS if n not in ('RAW', 'RETURN', 'SET_FLA
                   'CHECK_ADAPTER_SIG', 'DECRYPT_ADAPTER_SIG', 'CALL')]
 
 
+def shuffled(rng, c: dict) -> dict:
+    """the same entries in a random insertion order (a dict's order is not part of the embedder's contract)"""
+    ks = list(c); rng.shuffle(ks)
+    return {k: c[k] for k in ks}
+
+
 def random_cache(rng, keys: V.Keys, now=NOW, rich=True, clean=False) -> dict:
+    c = _random_cache(rng, keys, now, rich, clean)
+    return shuffled(rng, c) if rng.random() < .5 else c
+
+
+def _random_cache(rng, keys: V.Keys, now=NOW, rich=True, clean=False) -> dict:
     c = {}
     if clean:
         for i in range(1, 9):
